@@ -230,7 +230,7 @@ def run(ctx):
     from .c08 import _take
     r9 = Rule("C15", "C15.R9", "a render leaves nothing behind in memoised results for the next render to read", floor=1,
               necessary="token positions / lists edited in a cached parse make the second serialisation of the same text differ from the first")
-    _take(r9, c14.run(ctx), "C14.R2", lambda c: True)
+    _take(r9, ctx.other(c14), "C14.R2", lambda c: True)
     rules.append(r9)
     return rules
 
